@@ -8,6 +8,7 @@ CONSTANTS
   MaxFrames = 3
   TimeoutQ = 2
   Timed = TRUE
+  Acts = {"M","E","D","U","R","C","T"}
   Legacy = {}
   MaxHist = 4
 INVARIANTS TypeOK Unique InRange Conserve Bounded Ordered Exclusive DoneConsistent CloseCompletes EmitHist
